@@ -67,6 +67,7 @@ def rules(ctx):
     c095(ctx)
     c096(ctx)
     c097(ctx)
+    c098(ctx)
     from . import C13
     C13.c131(ctx)    # the manifest reader drops an unfinished edit only at the end of its input
 
@@ -290,6 +291,36 @@ def c093_header(ctx):
         ctx.check(R, g, "bound:header.size", bool(vals) and cap is not None and min(vals) <= cap,
                   "a header is returned only on the failing edge of header.size > a constant no larger than TABLE_FULL_SIZE",
                   "header.size is no longer bounded by a constant (at most TABLE_FULL_SIZE) before it sizes the frame buffer", pt=p)
+
+
+def c098(ctx):
+    R = "C09.8"
+    ctx.declare(R, "a count or offset decoded from a block's own bytes is subtracted from a length only under a comparison that involves it (or with "
+                   "checked_sub): an unchecked `len - 4 * num_restarts` panics in a checked build and wraps otherwise")
+    DATA = re.compile(r"::unpack$|Unpacker.*::unpack|restart_point$|from_le_bytes$")
+    n = 0
+    for f in sorted(ctx.prog.fns.values(), key=lambda f: f.key):
+        if f.crate != "sst" or not re.match(r"sst::block::(Block|BlockCursor)::", f.skey) or "{closure" in f.skey:
+            continue
+        for b in f.blocks:
+            for i, st in enumerate(b.st):
+                if not (st["s"] == "=" and st["rv"]["r"] == "bin" and st["rv"]["op"] in ("SubWithOverflow", "Sub", "SubUnchecked")):
+                    continue
+                sl = P.value_slice(f, st["rv"]["a"])[0] + P.value_slice(f, st["rv"]["b"])[0]
+                data = {x["pt"] for x in sl if x["k"] == "call" and DATA.search(x["callee"])}
+                if not data:
+                    continue
+                n += 1
+                ok = False
+                for g in K.compare_guards(f, (b.idx, i)):
+                    gs = P.value_slice(f, g["a"])[0] + P.value_slice(f, g["b"])[0]
+                    if any(x["k"] == "call" and x.get("pt") in data for x in gs):
+                        ok = True
+                ctx.check(R, f, "decoded-length-subtracted-under-a-check", ok, "the subtraction at line %d is dominated by a comparison with the decoded value" % st["sp"][1],
+                          "%s subtracts a value decoded from the block (line %d) with no comparison that bounds it: a restart count that does not fit the block "
+                          "-- reachable with the index block's bytes and the checksum the unprotected final block holds for them changed together -- is an "
+                          "arithmetic-overflow panic, not an error" % (f.skey, st["sp"][1]), pt=(b.idx, i))
+    # no floor: with checked_sub there is no such site left
 
 
 def c095(ctx):
